@@ -189,23 +189,30 @@ extern int mpt_axis_set(MPT_STRUCT(axis) *ax, const char *name, MPT_INTERFACE(co
 	}
 	if (!strcasecmp(name, "int") || !strcasecmp(name, "intv") || !strcasecmp(name, "intervals")) {
 		const char *l;
+		uint8_t intv = ax->intv;
 		if (!src) {
 			ax->intv = def_axis.intv;
 			ax->format &= ~MPT_ENUM(TransformLg);
 			return 0;
 		}
-		if (!(len = src->_vptr->convert(src, 'y', &ax->intv))) {
+		if ((len = src->_vptr->convert(src, 'y', &intv)) >= 0) {
+			ax->intv = len ? intv : def_axis.intv;
 			ax->format &= ~MPT_ENUM(TransformLg);
-			ax->intv = 0;
+			return 0;
 		}
-		if (len >= 0 || (len = src->_vptr->convert(src, 's', &l)) < 0 || len < 0 || !l) {
-			ax->format &= ~MPT_ENUM(TransformLg);
+		/* number out of range, text form needs a non-number */
+		if (len != MPT_ERROR(BadType)) {
+			return len;
 		}
-		else if (!strncasecmp(l, "log", 3)) {
-			ax->format |= MPT_ENUM(TransformLg);
-			ax->intv = 0;
+		if ((len = src->_vptr->convert(src, 's', &l)) < 0) {
+			return len;
 		}
-		return len < 0 ? len : 0;
+		if (!len || !l || strncasecmp(l, "log", 3)) {
+			return MPT_ERROR(BadValue);
+		}
+		ax->format |= MPT_ENUM(TransformLg);
+		ax->intv = 0;
+		return 0;
 	}
 	if (!strcasecmp(name, "exp") || !strcasecmp(name, "exponent")) {
 		if (!src || !(len = src->_vptr->convert(src, 'n', &ax->exp))) {
